@@ -288,6 +288,23 @@ static Plan gen_C05(uint64_t seed, Rng &r, uint64_t index) {
     }
     int nn = 1 + (int)r.below(2);
     for (int i = 0; i < nn; i++) p.nodes.push_back(rnd_node(r, {GLUE_BARE, GLUE_BARE, GLUE_LEGACY, GLUE_DARWIN}));
+    if (r.chance(0.04)) { // one mapper keeps its session alive for a long time (N openers without a Reset), then a second station tries to take over
+        p.family = 7;
+        p.nodes.resize(1);
+        int64_t N = r.chance(0.8) ? r.pickl({126, 127, 128, 129, 130, 254, 255, 256, 257, 258, 510, 511, 512, 513}) : r.range(100, 600);
+        uint16_t g = rnd_gen(r);
+        for (int64_t k = 0; k < N; k++) {
+            Op o = mk(OP_DISCOVER, (uint32_t)r.range(1, 8), {0, -1, 0, g, (int64_t)((k % 65000) + 1), 0, 0, 0});
+            p.ops.push_back(o);
+            if (r.chance(0.01)) { Op e = mk(OP_EMIT, 2, {0, -1, 0, rnd_seq(r), -1, 0}); e.blob = rnd_descs(r, 1); p.ops.push_back(e); }
+            if (r.chance(0.01)) p.ops.push_back(mk(OP_QLT, 2, {0, -1, 0, rnd_seq(r), 0x11, 0, 0}));
+            if (k > 100 && r.chance(0.5)) p.ops.push_back(mk(OP_DISCOVER, 1, {1 + (int64_t)r.below(2), -1, (int64_t)r.below(2), rnd_gen(r), rnd_seq(r), 0, 0, 0})); // somebody else knocks: must stay unanswered, whenever
+        }
+        int tail = (int)r.range(2, 6);
+        for (int k = 0; k < tail; k++) p.ops.push_back(mk(OP_DISCOVER, (uint32_t)r.range(1, 20), {(int64_t)(k % 2 ? 0 : 1 + (int)r.below(2)), -1, (int64_t)r.below(2), rnd_gen(r), rnd_seq(r), 0, 0, 0}));
+        p.tail_ms = 100;
+        return p;
+    }
     int nst = (int)r.range(3, 5);
     int nops = (int)r.range(3, 45);
     int active = -1; // generator-side tracking for the domain restriction (commands only from the active mapper or while none is active)
@@ -323,7 +340,8 @@ static Plan gen_C05(uint64_t seed, Rng &r, uint64_t index) {
 static Plan gen_C06(uint64_t seed, Rng &r) {
     Plan p = base_plan("C06", seed, r);
     NodeCfg n = rnd_node(r, {GLUE_BARE, GLUE_LEGACY, GLUE_DARWIN});
-    if (r.chance(0.1)) n.mtu = r.chance(0.4) ? (uint32_t)r.pickl({575, 574, 562, 561, 500, 400}) : (uint32_t)r.range(400, 575); // C06 holds for every MTU: links smaller than the 576 the other statements start at
+    if (r.chance(0.1)) n.mtu = r.chance(0.4) ? (uint32_t)r.pickl({575, 574, 562, 561, 500, 400}) : (uint32_t)r.range(400, 575);
+    else if (r.chance(0.04)) n.mtu = (uint32_t)r.pickl({16384, 32767, 32768, 32808, 65520, 65535, 65536}); // loopback, veth, IPoIB: the count field and 16-bit offsets get near their ends // C06 holds for every MTU: links smaller than the 576 the other statements start at
     p.nodes.push_back(n);
     if (r.chance(0.3)) p.nodes.push_back(rnd_node(r, {GLUE_BARE}));
     int mapper = (int)r.below(3);
@@ -366,6 +384,20 @@ static Plan gen_C07(uint64_t seed, Rng &r) {
     int br = rnd_bridge(r, mapper);
     size_t cap = (n.mtu - 34) / 20;
     p.ops.push_back(mk(OP_DISCOVER, 5, {mapper, br, 0, rnd_gen(r), rnd_seq(r), 0, 0, 0}));
+    if (r.chance(0.04)) { // the record filled to (or past) its bound; new observations arrive between the Queries that drain it
+        p.family = 6;
+        if (r.chance(0.7)) p.nodes[0].mtu = (uint32_t)r.pickl({1500, 1500, 4096, 9216});
+        int64_t total = r.pickl({1023, 1024, 1025, 1026, 1100, 511, 512, 513}), b0 = 40000;
+        p.ops.push_back(mk(OP_FLOOD, 5, {total, b0, 0, 0, 0}));
+        int q = (int)r.range(1, 4);
+        for (int k = 0; k < q; k++) {
+            p.ops.push_back(mk(OP_QUERY, 20, {mapper, br, 0, rnd_seq(r), k == q - 1 ? 150 : r.range(0, 3)}));
+            p.ops.push_back(mk(OP_FLOOD, (uint32_t)r.range(1, 40), {r.range(1, 3), b0 + total + 10 * k, 0, 0, 0}));
+        }
+        p.ops.push_back(mk(OP_QUERY, 400, {mapper, br, 0, rnd_seq(r), 150}));
+        p.tail_ms = 800;
+        return p;
+    }
     int rounds = (int)r.range(1, 4);
     int64_t base = 3000;
     for (int rd = 0; rd < rounds; rd++) {
@@ -488,6 +520,26 @@ static Plan gen_C10(uint64_t seed, Rng &r) {
     int rounds = (int)r.range(1, 3);
     Mix m;
     m.raw = 0; m.stray = 2; m.reset = 0; m.discover = 1; m.emit = 0; m.query = 0; m.flood = 1; m.stall = 0; m.qlt = 2;
+    if (r.chance(0.05)) { // several hundred frames from A pending at B when the Query arrives, B on a link whose QueryResp holds them all (or nearly)
+        p.family = 3;
+        p.nodes.resize(2);
+        int A = (int)r.below(2), B = 1 - A;
+        p.nodes[B].mtu = (uint32_t)r.pickl({5153, 5154, 5160, 9000, 9216, 9216});
+        p.nodes[A].proc_us = 0; p.nodes[B].proc_us = 0;
+        int64_t want = r.pickl({255, 256, 257, 300, 400, 511, 512, 513}), left = want;
+        size_t per = (p.nodes[A].mtu - 34) / 14;
+        while (left > 0) {
+            size_t c = (size_t)std::min<int64_t>(left, (int64_t)per);
+            Op e = mk(OP_EMIT, (uint32_t)r.range(20, 60), {mapper, -1, A, rnd_seq(r), -1, 0});
+            e.blob = rnd_descs(r, c, nullptr, &nm[B]); // pairwise distinct spoofed sources
+            for (size_t d = 0; d < c; d++) e.blob[d * 14 + 1] = 0; // no pauses
+            p.ops.push_back(e);
+            left -= (int64_t)c;
+        }
+        p.ops.push_back(mk(OP_QUERY, (uint32_t)r.range(300, 900), {mapper, -1, B, rnd_seq(r), 40}));
+        p.tail_ms = 600;
+        return p;
+    }
     for (int rd = 0; rd < rounds; rd++) {
         int A = (int)r.below(2), B = 1 - A;
         size_t cnt = (size_t)r.range(1, 6);
@@ -651,6 +703,21 @@ static Plan gen_C13(uint64_t seed, Rng &r) {
             p.ops.push_back(mk(OP_A_SETR, 0, {r2}));
             p.ops.push_back(mk(OP_A_BLOCKEND, 0, {}));
             if (r.chance(0.3)) { p.ops.push_back(mk(OP_A_HEARD, 0, {r.range(1, 400)})); p.ops.push_back(mk(OP_A_ADV, 0, {r.range(300, 700)})); p.ops.push_back(mk(OP_A_TICK, 0, {})); }
+            if (r.chance(0.25)) { // an enumeration that ends because the mapper acknowledged us (not by Reset or expiry), directly followed by a new one
+                p.ops.push_back(mk(OP_A_TADD, 0, {0, 5}));
+                p.ops.push_back(mk(OP_A_DISCBOOK, 0, {}));
+                int tk = (int)r.range(1, 4);
+                for (int q = 0; q < tk; q++) { p.ops.push_back(mk(OP_A_ADV, 0, {r.range(200, 1500)})); p.ops.push_back(mk(OP_A_TICK, 0, {})); }
+                p.ops.push_back(mk(OP_A_TCOMPL, 0, {0, 1}));
+                p.ops.push_back(mk(OP_A_TICK, 0, {})); p.ops.push_back(mk(OP_A_ADV, 0, {r.range(0, 200)})); p.ops.push_back(mk(OP_A_TICK, 0, {}));
+                if (r.chance(0.5)) p.ops.push_back(mk(OP_A_TICK, 0, {}));
+                p.ops.push_back(mk(OP_A_ADV, 0, {r.range(0, 600)}));
+                p.ops.push_back(mk(OP_A_TADD, 0, {1, 6}));
+                p.ops.push_back(mk(OP_A_DISCBOOK, 0, {}));
+                p.ops.push_back(mk(OP_A_HEARD, 0, {r.range(1, 9)}));
+                p.ops.push_back(mk(OP_A_BLOCKEND, 0, {}));
+                p.ops.push_back(mk(OP_A_TCOMPL, 0, {0, 0}));
+            }
             if (r.chance(0.4)) { // Hellos counted one by one across consecutive blocks, the first of them before enumeration has begun
                 p.ops.push_back(mk(OP_A_BANDSET, 0, {r.range(45, 10000), 0}));
                 p.ops.push_back(mk(OP_A_SETR, 0, {0}));
@@ -676,6 +743,12 @@ static Plan gen_C13(uint64_t seed, Rng &r) {
             p.ops.push_back(mk(OP_HELLO, (uint32_t)r.range(0, 400), {(int64_t)r.range(4, 7), rnd_gen(r), 0, cnt, cnt <= 3000 && r.chance(0.5) ? r.range(1, 280) : 0, 0}));
             if (r.chance(0.3)) p.ops.push_back(mk(OP_STALL, 1, {0, r.range(100, 900)}));
             if (r.chance(0.3)) { Op d2 = mk(OP_DISCOVER, (uint32_t)r.range(100, 900), {0, -1, 0, 0x0909, rnd_seq(r), 1, 2, -1}); d2.blob = {0}; p.ops.push_back(d2); }
+            if (r.chance(0.3)) { // the mapper acknowledges us: the enumeration ends by completion; another mapper opens a new one while our last Hello is less than a second old
+                Op ack = mk(OP_DISCOVER, (uint32_t)r.range(900, 2600), {0, -1, 0, 0x0909, rnd_seq(r), 1, 2, 0}); ack.blob = {0}; p.ops.push_back(ack);
+                p.ops.push_back(mk(OP_TICK, (uint32_t)r.range(1, 60), {0})); p.ops.push_back(mk(OP_TICK, (uint32_t)r.range(1, 60), {0}));
+                Op d3 = mk(OP_DISCOVER, (uint32_t)r.range(1, 500), {1, -1, 0, rnd_gen(r), rnd_seq(r), 1, 2, -1}); d3.blob = {0}; p.ops.push_back(d3);
+                p.ops.push_back(mk(OP_HELLO, (uint32_t)r.range(1, 100), {(int64_t)r.range(4, 7), rnd_gen(r), 0, r.range(1, 9), r.range(1, 20), 0}));
+            }
         }
         p.tail_ms = (uint32_t)r.range(400, 3000);
     }
@@ -822,9 +895,14 @@ static Plan gen_C19(uint64_t seed, Rng &r, const std::string &tier) {
     if (p.family == 0) { // flood of pairwise distinct sources, no Query
         int64_t total = tier == "thorough" ? (r.chance(0.3) ? 100000 : r.range(2000, 30000)) : (r.chance(0.2) ? 20000 : r.range(500, 6000));
         int64_t base = 10000;
+        // 0: every frame has its own source; +1: one real source for all (the mapper, ourselves, a neighbour of ours), distinct Ethernet sources; -1: the reverse
+        int fixed_src = r.chance(0.25) ? (r.chance(0.7) ? 1 : -1) : 0;
+        int64_t fixed_id = r.chance(0.5) ? -2 /* station 0 = the mapper */ : r.pickl({100, 300, 301, 1, 7777});
         while (total > 0) {
             int64_t c = std::min(total, r.range(100, 5000));
-            p.ops.push_back(mk(OP_FLOOD, (uint32_t)r.range(0, 50), {c, base, 0, 0, 0}));
+            { Op fl = mk(OP_FLOOD, (uint32_t)r.range(0, 50), {c, base, 0, 0, 0});
+              if (fixed_src) fl.a[fixed_src > 0 ? 5 : 6] = fixed_id;
+              p.ops.push_back(fl); }
             base += c; total -= c;
             if (r.chance(0.1)) p.ops.push_back(op_discover(r, mapper, 0));
         }
@@ -887,7 +965,7 @@ Plan generate_plan_indexed(const std::string &prop, uint64_t verif_seed, uint64_
             Plan p = generate_plan(sib, mix64(seed, 0x51B), tier);
             if (!p.api_world && p.ops.size() < 400) {
                 p.prop = prop; p.family = 50; p.seed = seed;
-                for (auto &n : p.nodes) if (n.mtu < 576) n.mtu = 576; // only C06 is stated for links below 576 bytes
+                for (auto &n : p.nodes) { if (n.mtu < 576) n.mtu = 576; if (n.mtu > 9216) n.mtu = 9216; } // only C06 is stated for links outside [576, 9216]
                 if (p.nodes.size() > 8) return generate_plan(prop, seed, tier);
                 p.twin = prop == "C09";
                 if (prop != "C09" && prop != "C19" && prop != "C01" && prop != "C02") for (auto &o : p.ops) { std::vector<Fault> keep; for (auto &f : o.f) if (!fault_is_internal(f.kind)) keep.push_back(f); o.f = keep; }
